@@ -755,6 +755,7 @@ func (ed Editor) JustifyOpts(width int, opts Options) Editor {
 		}, opts)
 		return ed
 	} else {
+		origOpts := ed.Options
 		if !opts.JustifyLastLine {
 			ed = ed.WithOptions(opts).LinesTo(-1)
 		}
@@ -764,7 +765,9 @@ func (ed Editor) JustifyOpts(width int, opts Options) Editor {
 		}, opts)
 
 		if !opts.JustifyLastLine {
-			ed = ed.Commit()
+			// the sub-editor was taken from a copy carrying opts; do not
+			// leak those into the returned Editor
+			ed = ed.Commit().WithOptions(origOpts)
 		}
 
 		return ed
